@@ -42,6 +42,8 @@ DIAG_PATTERNS = [
     ("DRestAmbiguousBody", r"ambiguous body binding"),
     ("DRestAmbiguousQuery", r"ambiguous query map binding"),
     ("DRestNeedsBody", r"needs a struct parameter as request body"),
+    ("DRestUnnamedParam", r"parameters must be named"),
+    ("DRestPtrPathParam", r"must not be a pointer"),
     ("DRestBadPath", r"bad path format"),
     ("DRestFewResults", r"should at least return response and error"),
     ("DRestManyResults", r"must not return more than three"),
@@ -547,6 +549,8 @@ SITES = {
     "internal/restclient/paramhandler.go:67": "not covered: build.Import of the parameter's package fails",
     "internal/restclient/paramhandler.go:71": "DRestExtract", "internal/restclient/paramhandler.go:117": "DRestAmbiguousBody",
     "internal/restclient/paramhandler.go:123": "DRestAmbiguousQuery", "internal/restclient/cook.go:138": "DRestNeedsBody",
+    "internal/restclient/cook.go:121": "DRestUnnamedParam", "internal/restclient/cook.go:125": "DRestUnnamedParam",
+    "internal/restclient/cook.go:137": "DRestPtrPathParam",
     "internal/restclient/cook.go:141": "DRestFewResults", "internal/restclient/cook.go:144": "DRestManyResults",
     "internal/restclient/cook.go:149": "DRestSecondToLast", "internal/restclient/cook.go:153": "DRestLast",
     "internal/restclient/cook.go:159": "DRestNamedResults", "internal/restclient/cook.go:180": "DRestNotExists",
@@ -741,9 +745,14 @@ def body(run, proof_ok):
         ],
     }
     return run.finish(cov, assumptions=[
-        "C18_nonzero_exit_changes_nothing assumes no failing system call and only regular files among the foreign entries of the "
-        "package directory; the two ways to violate it on a directory state (open findings K_clean_unreadable_after_write, "
-        "K_rename_fail_after_write) are proved as refutations and replayed on every run",
+        "C18_nonzero_exit_changes_nothing assumes no failing system call and state_ok: no directory at the name of an output and, "
+        "when the all-in-one cleanup runs, only regular files among the entries matching *.shoot<cmd>*.go; the two ways to violate "
+        "it on a directory state (open findings K_clean_unreadable_after_write, K_rename_fail_after_write) are proved as "
+        "refutations and replayed on every run",
+        "C18_structural_stop_before_write_changes_nothing is structural (analyse takes no world): that LoadPackage and Generate "
+        "write nothing is an assumption of the model, tied to the binary only by the recursive directory hash",
+        "absence of panics is PROVED only for the 11 guarded index/dereference sites of the transcribed functions; for library "
+        "code (go/types, packages.Load, text/template, gofmt) and untranscribed generator code it is sampled (Pb on every run)",
         "C18_always_a_deliberate_exit assumes a well-founded embedding relation (open findings K_ctor_self_embed, "
         "K_map_self_embed); the comparison stream stays inside this guard.  The former panic classes (unnamed "
         "parameters/receivers, bodiless declarations, accessor arities in the mapper; a Go file without package clause "
@@ -950,6 +959,10 @@ def coverage_suite():
     fs, ex = _rest_pkg()
     fs[0].decls[1][1][0].body[1][1].doc = ("req", "Post", '"/items"')
     add("DRestNeedsBody", _case("rest", ["rest", "-type=Client"], fs))
+    fs, ex = _rest_pkg(params=[F.Param(["id"], F.tid("int")), F.Param(["_"], F.tid("string"))])
+    add("DRestUnnamedParam", _case("rest", ["rest", "-type=Client"], fs))
+    fs, ex = _rest_pkg(params=[F.Param(["id"], F.tstar(F.tid("int")))])
+    add("DRestPtrPathParam", _case("rest", ["rest", "-type=Client"], fs))
     fs, ex = _rest_pkg(path='"/a"b"')
     add("DRestBadPath", _case("rest", ["rest", "-type=Client"], fs))
     fs, ex = _rest_pkg(results=[err])
